@@ -3,8 +3,14 @@ import CnbVerif.Model.Runtime
 import CnbVerif.Spec.RuntimeTable
 /-! Driver glue for C05: parse an abstract invocation, run the model, judge the implementation's observation by the
 decision table. Payloads: plan / launch / store are the variant of the test buildpack's payload (`Nat`: 0 normal, 1 empty /
-minimal document, 2 other shape — the harness recognises which one a file holds); SBOM data is `k` (normal data of the item
-at position `k`), `1000` (no bytes at all) or `2000 + k` (binary data of item `k`). -/
+minimal document, 2 other shape, `10 + n` the normal document padded to exactly `n` bytes — the harness recognises which one
+a file holds); SBOM data is `k` (normal data of the item at position `k`), `1000` (no bytes at all), `2000 + k` (binary data of
+item `k`) or `1000000 + 1000 * n + k` (exactly `n` bytes of padded data of item `k`).
+
+Pre-existing state `w` of an output path = it can be opened for writing but every write of at least one byte fails (the
+harness links it to `/dev/full`; for store.toml, which is read first, the test buildpack's build code does). A payload of zero
+bytes (the empty plan, the empty launch document, an SBOM without bytes) makes no write at all, so `w` is no fault for it:
+such a combination is refused (`bad-op`), the harness does not generate it. -/
 namespace CnbVerif.DriverC05
 open CnbVerif CnbVerif.Runtime
 
@@ -83,10 +89,10 @@ def bpDirCtxOk (vars ctx : String) : Bool :=
   !(ctx.startsWith "gone" ∧ (vars.startsWith "@rel," ∨ vars.startsWith "@empty,"))
 
 def parsePre : Char → Option Pre
-  | 'a' => some .absent | 'f' => some .file | 'd' => some .dir | _ => none
+  | 'a' => some .absent | 'f' => some .file | 'd' => some .dir | 'w' => some .writeFails | _ => none
 
 def parseStorePre : String → Option StorePre
-  | "a" => some .absent | "v" => some .valid | "m" => some .malformed | "d" => some .dir | _ => none
+  | "a" => some .absent | "v" => some .valid | "m" => some .malformed | "d" => some .dir | "w" => some .writeFails | _ => none
 
 def parsePre3 (s : String) : Option (Fmt → Pre) :=
   match s.toList.map parsePre with
@@ -101,8 +107,14 @@ def parseDbeh : String → Option (DetectBeh Nat)
   | "fail" => some .fail | "err" => some .err | _ => none
 
 /-- SBOM data of item `k`: normal, empty, binary -/
-def sbomData (k : Nat) : String → Option Nat
-  | "" => some k | "e" => some 1000 | "x" => some (2000 + k) | _ => none
+def sbomData (k : Nat) (s : String) : Option Nat :=
+  if s = "" then some k else if s = "e" then some 1000 else if s = "x" then some (2000 + k)
+  else if s.startsWith "s" then (s.drop 1).toString.toNat?.map (fun n => 1000000 + 1000 * n + k)
+  else none
+
+/-- `slaunch<n>` / `sstore<n>`: the document padded to `n` bytes -/
+def sizedItem (pfx item : String) : Option Nat :=
+  if item.startsWith pfx then (item.drop pfx.length).toString.toNat?.map (fun n => 10 + n) else none
 
 /-- items of `ok:<items>` applied like the calls on `BuildResultBuilder` (`launch` / `store` replace, SBOMs are pushed);
 `k` is the position of the item -/
@@ -113,6 +125,8 @@ def addItem (r : Res) (k : Nat) (item : String) : Option Res :=
   else if item = "store" then some { r with store := some 0 }
   else if item = "estore" then some { r with store := some 1 }
   else if item = "xstore" then some { r with store := some 2 }
+  else if (sizedItem "slaunch" item).isSome then some { r with launch := sizedItem "slaunch" item }
+  else if (sizedItem "sstore" item).isSome then some { r with store := sizedItem "sstore" item }
   else match item.splitOn "." with
     | [h, f] =>
       if h.startsWith "b" then
@@ -151,6 +165,17 @@ def layoutOk (link ctx : String) : Bool :=
       !((inv = "rel" ∨ inv = "dotdot") ∧ ctx.startsWith "gone")
   | _ => false
 
+/-- a payload of zero bytes is to go to a path in state `w` (no write happens: `w` cannot stand for a failing write there) -/
+def zeroBytesOntoFault (i : Inv) : Bool :=
+  (i.planPre == .writeFails && (match i.dbeh with | .passPlan 1 => true | _ => false)) ||
+  (match i.bbeh with
+   | .ok r => (i.launchPre == .writeFails && r.launch == some 1) ||
+       r.bsboms.any (fun x => x.2 == 1000 && i.bPre x.1 == .writeFails) ||
+       r.lsboms.any (fun x => x.2 == 1000 && i.lPre x.1 == .writeFails)
+   | _ => false)
+
+def guardZero (i : Inv) : Option Inv := if zeroBytesOntoFault i then none else some i
+
 def parseInv (fields : List String) : Option Inv :=
   match fields with
   | [exe, nargs, desc, vars, ctx, dbeh, bbeh, pre, link] =>
@@ -163,18 +188,20 @@ def parseInv (fields : List String) : Option Inv :=
       let one (s : String) : Option Pre := match s.toList with | [c] => parsePre c | _ => none
       match cwd?, plat?, planIn?, one pp, one lp, parseStorePre sp, parsePre3 bp, parsePre3 lp3 with
       | some cwd, some plat, some planIn, some pp, some lp, some sp, some bp, some lp3 =>
-        some { exe := exe, nargs := nargs, desc := desc, vars := vars, cwdOk := cwd, plat := plat, planIn := planIn,
-               dbeh := dbeh, bbeh := bbeh, planPre := pp, launchPre := lp, storePre := sp, bPre := bp, lPre := lp3 }
+        guardZero { exe := exe, nargs := nargs, desc := desc, vars := vars, cwdOk := cwd, plat := plat, planIn := planIn,
+                    dbeh := dbeh, bbeh := bbeh, planPre := pp, launchPre := lp, storePre := sp, bPre := bp, lPre := lp3 }
       | _, _, _, _, _, _, _, _ => none
     | _, _, _, _, _, _, _, _ => none
   | _ => none
 
 -- ------------------------------------------------------------------ rendering the model's outcome
 def preTok : Pre → String
-  | .absent => "a" | .file => "o" | .dir => "d"
+  | .absent => "a" | .file => "o" | .dir => "d" | .writeFails => "w"
 
-def storePreTok : StorePre → String
+/-- `writeFails`: the old store is there until the build code ran, the link to the full device from then on -/
+def storePreTok (buildRan : Bool) : StorePre → String
   | .absent => "a" | .valid => "o" | .malformed => "o" | .dir => "d"
+  | .writeFails => if buildRan then "w" else "o"
 
 def outTok (pre : String) (w : α → String) : FileOut α → String
   | .untouched => pre
@@ -194,10 +221,12 @@ def kindName : ErrKind → String
 def b01 (b : Bool) : String := if b then "1" else "0"
 
 /-- payload variant of plan / launch / store as the harness names it -/
-def varTok (v : Nat) : String := if v = 0 then "n" else if v = 1 then "e" else "x"
+def varTok (v : Nat) : String := if v = 0 then "n" else if v = 1 then "e" else if v < 10 then "x" else "s" ++ toString (v - 10)
 
 def sbomTok (d : Nat) : String :=
-  if d < 1000 then "n" ++ toString d else if d = 1000 then "e" else "x" ++ toString (d - 2000)
+  if d < 1000 then "n" ++ toString d else if d = 1000 then "e"
+  else if d < 1000000 then "x" ++ toString (d - 2000)
+  else "s" ++ toString ((d - 1000000) / 1000) ++ "k" ++ toString (d % 1000)
 
 def render (i : Inv) (o : Out) : String :=
   let sb (pre : Fmt → Pre) (st : Fmt → FileOut Nat) : String :=
@@ -206,7 +235,7 @@ def render (i : Inv) (o : Out) : String :=
   ";kind=" ++ (match o.errKind with | some k => kindName k | none => "-") ++
   ";plan=" ++ outTok (preTok i.planPre) varTok o.plan ++
   ";launch=" ++ outTok (preTok i.launchPre) varTok o.launch ++
-  ";store=" ++ outTok (storePreTok i.storePre) varTok o.store ++
+  ";store=" ++ outTok (storePreTok o.buildRan i.storePre) varTok o.store ++
   ";b=" ++ sb i.bPre o.bsbom ++ ";l=" ++ sb i.lPre o.lsbom
 
 -- ------------------------------------------------------------------ parsing the implementation's observation
@@ -218,13 +247,18 @@ def kv (key : String) (s : String) : Option String :=
 /-- a raw state token relative to what was there before: the same ⇒ untouched; `n…` ⇒ written; otherwise other -/
 def parseOut (pre : String) (tok : String) : FileOut Nat :=
   if tok = pre then .untouched else if tok = "n" then .written 0 else if tok = "e" then .written 1
-  else if tok = "x" then .written 2 else .other
+  else if tok = "x" then .written 2
+  else if tok.startsWith "s" then match (tok.drop 1).toString.toNat? with | some n => .written (10 + n) | none => .other
+  else .other
 
 def parseOutN (pre : String) (tok : String) : FileOut Nat :=
   if tok = pre then .untouched
   else if tok = "e" then .written 1000
   else if tok.startsWith "n" then match (tok.drop 1).toString.toNat? with | some k => if k < 1000 then .written k else .other | none => .other
-  else if tok.startsWith "x" then match (tok.drop 1).toString.toNat? with | some k => .written (2000 + k) | none => .other
+  else if tok.startsWith "x" then match (tok.drop 1).toString.toNat? with | some k => if k < 1000 then .written (2000 + k) else .other | none => .other
+  else if tok.startsWith "s" then match (tok.drop 1).toString.splitOn "k" with
+    | [n, k] => (match n.toNat?, k.toNat? with | some n, some k => if k < 1000 then .written (1000000 + 1000 * n + k) else .other | _, _ => .other)
+    | _ => .other
   else .other
 
 def parse3 (pre : Fmt → Pre) (s : String) : Option (Fmt → FileOut Nat) :=
@@ -242,7 +276,7 @@ def parseObs (i : Inv) (obs : String) : Option Out :=
       if (dt = "0" ∨ dt = "1") ∧ (bl = "0" ∨ bl = "1") then
         some { exit := e, detectRan := dt = "1", buildRan := bl = "1", onError := oe, errKind := none,
                plan := parseOut (preTok i.planPre) pl, launch := parseOut (preTok i.launchPre) la,
-               store := parseOut (storePreTok i.storePre) st, bsbom := b, lsbom := l }
+               store := parseOut (storePreTok (bl = "1") i.storePre) st, bsbom := b, lsbom := l }
       else none
     | _, _, _, _, _, _, _, _, _ => none
   | _ => none
